@@ -762,7 +762,7 @@ func r14_4(c *Ctx) {
 
 func r14_5(c *Ctx) {
 	c.rule("R14.5", "every slice stored into a token.Token by the lexer is a fresh copy, or the lexer-side buffer is replaced before it is appended to again")
-	c.floor(2)
+	c.floor(1)
 	tokSlices := []*types.Var{}
 	ts := c.structOf("token", "Token")
 	for i := 0; i < ts.NumFields(); i++ {
